@@ -452,3 +452,51 @@ Theorem C07_f32_model_negint : forall (E : env) (n : numlit) (r : bytes) (o : na
 Proof. exact (@LexF32Glue2.C07_f32_model_negint). Qed.
 Print Assumptions C07_f32_model_negint.
 
+From Coq Require Import String ZArith NArith List Bool Lia ZifyBool ZifyNat ZifyN.
+From Flocq Require Import Core BinarySingleNaN.
+From SJ Require Import Base.Bytes Base.FloatB Gen.LexTables Model.Num Model.Lex Model.LexAlgAst Gen.LexAlgTables Model.LexAlgEnv.
+From SJ Require Import Proofs.LexExt Proofs.LexAlgSrc Proofs.LexAlgSrc2 Proofs.LexAlgSrc3.
+From SJ Require Import Proofs.LexAlgSrc4.
+Local Open Scope string_scope.
+Local Open Scope list_scope.
+Theorem C07_lexical_algorithm_is_source :
+  (forall G : genv, forall n f, 0 <= n < 64 -> (2 <= f)%nat -> call f G "nth_bit" [VInt U64 n] = Ok (VInt U64 (2 ^ n), [])) /\
+  (forall G : genv, forall n f, 0 <= n <= 64 -> (3 <= f)%nat -> call f G "lower_n_mask" [VInt U64 n] = Ok (VInt U64 (Z.of_N (lower_n_mask n)), [])) /\
+  (forall G : genv, forall n f, 0 <= n <= 64 -> (5 <= f)%nat -> call f G "lower_n_halfway" [VInt U64 n] = Ok (VInt U64 (Z.of_N (lower_n_halfway n)), [])) /\
+  (forall G : genv, forall bit n f, 0 <= n <= bit -> bit <= 64 -> (5 <= f)%nat -> call f G "internal_n_mask" [VInt U64 bit; VInt U64 n] = Ok (VInt U64 (Z.of_N (internal_n_mask bit n)), [])) /\
+  (forall G : genv, forall fp shift f, ef_ok fp -> 0 <= shift < 64 -> i32_ok (exp fp + shift) -> (2 <= f)%nat -> call f G "shr" [ef_val fp; VInt I32 shift] = Ok (VUnit, [ef_val (shr fp shift)])) /\
+  (forall G : genv, forall fp shift f, ef_ok fp -> 0 <= shift <= 64 -> i32_ok (exp fp + shift) -> (2 <= f)%nat -> call f G "overflowing_shr" [ef_val fp; VInt I32 shift] = Ok (VUnit, [ef_val (overflowing_shr fp shift)])) /\
+  (forall G : genv, forall fp shift f, ef_ok fp -> 0 <= shift < 64 -> i32_ok (exp fp - shift) -> (2 <= f)%nat -> call f G "shl" [ef_val fp; VInt I32 shift] = Ok (VUnit, [ef_val (shl fp shift)])) /\
+  (forall G : genv, forall v f, 0 <= v <= 18446744073709551615 -> (2 <= f)%nat -> call f G "into_i32" [VInt Usize v] = Ok (VInt I32 (into_i32 v), [])) /\
+  (forall G : genv, forall e (integer_digits fraction_start : nat) f, i32_ok e -> 0 <= Z.of_nat integer_digits <= 18446744073709551615 -> 0 <= Z.of_nat fraction_start <= 18446744073709551615 -> (5 <= f)%nat -> call f G "scientific_exponent" [VInt I32 e; VInt Usize (Z.of_nat integer_digits); VInt Usize (Z.of_nat fraction_start)] = Ok (VInt I32 (scientific_exponent e integer_digits fraction_start), [])) /\
+  (forall G : genv, forall e (fraction_digits truncated : nat) f, i32_ok e -> 0 <= Z.of_nat fraction_digits <= 18446744073709551615 -> 0 <= Z.of_nat truncated <= 18446744073709551615 -> (5 <= f)%nat -> call f G "mantissa_exponent" [VInt I32 e; VInt Usize (Z.of_nat fraction_digits); VInt Usize (Z.of_nat truncated)] = Ok (VInt I32 (mantissa_exponent e fraction_digits truncated), [])) /\
+  (forall G : genv, forall (c : N) f, (c <= 255)%N -> (1 <= f)%nat -> call f G "to_digit" [VInt U8 (Z.of_N c)] = Ok (VOpt (if is_digit c then Some (VInt U32 (Z.of_N (digit_val c))) else None), [])) /\
+  (forall G : genv, forall (m d : N) f, u64_ok m -> (d < 4294967296)%N -> (2 <= f)%nat -> call f G "add_digit" [VInt U64 (Z.of_N m); VInt U32 (Z.of_N d)] = Ok (VOpt (if (m * 10 + d <? two64N)%N then Some (VInt U64 (Z.of_N (m * 10 + d))) else None), [])) /\
+  (forall G : genv, forall fp shift f, ef_ok fp -> 0 <= shift <= 64 -> i32_ok (exp fp + shift) -> (7 <= f)%nat -> call f G "round_nearest" [ef_val fp; VInt I32 shift] = Ok (let '(fp1, is_above, is_halfway) := round_nearest fp shift in (VTup (VB is_above) (VB is_halfway), [ef_val fp1]))) /\
+  (forall G : genv, forall fp is_above is_halfway f, ef_ok fp -> (mant fp + 1 < two64N)%N -> (3 <= f)%nat -> call f G "tie_even" [ef_val fp; VB is_above; VB is_halfway] = Ok (VUnit, [ef_val (tie_even fp is_above is_halfway)])) /\
+  (forall G : genv, forall fp shift f, ef_ok fp -> 1 <= shift <= 64 -> i32_ok (exp fp + shift) -> (9 <= f)%nat -> call f G "round_nearest_tie_even" [ef_val fp; VInt I32 shift] = Ok (VUnit, [ef_val (round_nearest_tie_even fp shift)])) /\
+  (forall G : genv, forall fp shift f, ef_ok fp -> 0 <= shift <= 64 -> i32_ok (exp fp + shift) -> (5 <= f)%nat -> call f G "round_toward" [ef_val fp; VInt I32 shift] = Ok (VB (negb (N.land (mant fp) (lower_n_mask shift) =? 0)%N), [ef_val (overflowing_shr fp shift)])) /\
+  (forall G : genv, forall v b f, (1 <= f)%nat -> call f G "downard" [v; VB b] = Ok (VUnit, [v])) /\
+  (forall G : genv, forall fp shift f, ef_ok fp -> 0 <= shift <= 64 -> i32_ok (exp fp + shift) -> (7 <= f)%nat -> call f G "round_downward" [ef_val fp; VInt I32 shift] = Ok (VUnit, [ef_val (round_downward fp shift)])) /\
+  (forall G : genv, forall fp f, ef_ok fp -> -2147483648 + 63 <= exp fp -> (4 <= f)%nat -> call f G "ExtendedFloat::normalize" [ef_val fp] = Ok (VInt U32 (snd (ef_normalize fp)), [ef_val (fst (ef_normalize fp))])) /\
+  (forall G : genv, forall a b f, ef_ok a -> ef_ok b -> (two32N <= mant a)%N -> (two32N <= mant b)%N -> i32_ok (exp a + exp b) -> i32_ok (exp a + exp b + 64) -> (2 <= f)%nat -> call f G "ExtendedFloat::mul" [ef_val a; ef_val b] = Ok (ef_val (ef_mul a b), [])) /\
+  (forall G : genv, forall a b f, ef_ok a -> ef_ok b -> (two32N <= mant a)%N -> (two32N <= mant b)%N -> i32_ok (exp a + exp b) -> i32_ok (exp a + exp b + 64) -> (4 <= f)%nat -> call f G "ExtendedFloat::imul" [ef_val a; ef_val b] = Ok (VUnit, [ef_val (ef_mul a b)])) /\
+  (forall k : fkind, forall name algo n fp f, alg_spec (lex_genv k) name algo n -> algo_ok algo -> ef_ok fp -> exp fp + DEFAULT_SHIFT k + 1 <= 2147483647 -> (n + 4 <= f)%nat -> call f (lex_genv k) "round_to_float" [ef_val fp; VFn name] = Ok (VUnit, [ef_val (round_to_float k algo fp)])) /\
+  (forall k : fkind, forall fp f, ef_ok fp -> (10 <= f)%nat -> call f (lex_genv k) "avoid_overflow" [ef_val fp] = Ok (VUnit, [ef_val (avoid_overflow k fp)])) /\
+  (forall k : fkind, forall name algo n fp f, alg_spec (lex_genv k) name algo n -> algo_ok algo -> ef_ok fp -> -2147483648 + 63 <= exp fp -> exp fp + DEFAULT_SHIFT k + 1 <= 2147483647 -> (n + 11 <= f)%nat -> call f (lex_genv k) "round_to_native" [ef_val fp; VFn name] = Ok (VUnit, [ef_val (round_to_native k algo fp)])) /\
+  (forall k : fkind, forall name algo n fp f, alg_spec (lex_genv k) name algo n -> algo_ok algo -> ef_ok fp -> -2147483648 + 63 <= exp fp -> exp fp + DEFAULT_SHIFT k + 1 <= 2147483647 -> (n + 12 <= f)%nat -> call f (lex_genv k) "ExtendedFloat::round_to_native" [ef_val fp; VFn name] = Ok (VUnit, [ef_val (round_to_native k algo fp)])) /\
+  (forall k : fkind, forall fp f, ef_ok fp -> (4 <= f)%nat -> call f (lex_genv k) "into_float" [ef_val fp] = Ok (VF (FBits (Z.of_N (into_float_bits k fp))), [])) /\
+  (forall k : fkind, forall fp f, ef_ok fp -> -2147483648 + 63 <= exp fp -> exp fp + DEFAULT_SHIFT k + 1 <= 2147483647 -> (22 <= f)%nat -> call f (lex_genv k) "ExtendedFloat::into_float" [ef_val fp] = Ok (VF (FBits (Z.of_N (ef_into_float k fp))), [])) /\
+  (forall k : fkind, forall fp f, ef_ok fp -> -2147483648 + 63 <= exp fp -> exp fp + DEFAULT_SHIFT k + 1 <= 2147483647 -> (20 <= f)%nat -> call f (lex_genv k) "ExtendedFloat::into_downward_float" [ef_val fp] = Ok (VF (FBits (Z.of_N (ef_into_downward_float k fp))), [])) /\
+  (forall G : genv, forall f, (1 <= f)%nat -> call f G "u64::error_scale" [] = Ok (VInt U32 (Z.of_N ERROR_SCALE), [])) /\
+  (forall G : genv, forall f, (2 <= f)%nat -> call f G "u64::error_halfscale" [] = Ok (VInt U32 (Z.of_N ERROR_HALFSCALE), [])) /\
+  (forall G : genv, forall (errors : N) fp extrabits f, (errors < two64N)%N -> ef_ok fp -> 0 <= extrabits <= 65 -> (8 <= f)%nat -> call f G "nearest_error_is_accurate" [VInt U64 (Z.of_N errors); ef_val fp; VInt U64 extrabits] = Ok (VB (nearest_error_is_accurate errors fp extrabits), [])) /\
+  (forall k : fkind, forall (count : N) fp f, (count < two32N)%N -> ef_ok fp -> (10 <= f)%nat -> call f (lex_genv k) "u64::error_is_accurate" [VInt U32 (Z.of_N count); ef_val fp] = Ok (VB (error_is_accurate k count fp), [])) /\
+  (forall k : fkind, forall (bits : N) f, fbits_ok k bits -> (1 <= f)%nat -> call f (lex_genv k) "Float::is_special" [VF (FBits (Z.of_N bits))] = Ok (VB (f_is_special k bits), [])) /\
+  (forall k : fkind, forall (mantissa : N) exponent f, u64_ok mantissa -> i32_ok exponent -> (8 <= f)%nat -> res_bits (call f (lex_genv k) "fast_path" [VInt U64 (Z.of_N mantissa); VInt I32 exponent]) = Ok (some_bits (fast_path k mantissa exponent), [])) /\
+  (forall k : fkind, forall fp exponent truncated f, ef_ok fp -> mant fp <> 0%N -> -1000000 <= exp fp <= 1000000 -> i32_ok exponent -> (20 <= f)%nat -> call f (lex_genv k) "multiply_exponent_extended" [ef_val fp; VInt I32 exponent; VB truncated] = Ok (let '(fp', valid) := multiply_exponent_extended k fp exponent truncated in (VB valid, [ef_val fp']))) /\
+  (forall k : fkind, forall (mantissa : N) exponent truncated f, u64_ok mantissa -> mantissa <> 0%N -> i32_ok exponent -> (22 <= f)%nat -> call f (lex_genv k) "moderate_path" [VInt U64 (Z.of_N mantissa); VInt I32 exponent; VB truncated] = Ok (let '(fp, valid) := moderate_path k mantissa exponent truncated in (VTup (ef_val fp) (VB valid), []))) /\
+  (forall k : fkind, forall (integer fraction : list N) (mantissa : N) exponent mantissa_exponent truncated f, u64_ok mantissa -> mantissa <> 0%N -> i32_ok exponent -> i32_ok mantissa_exponent -> (26 <= f)%nat -> call f (lex_genv k) "fallback_path" [VBytes integer; VBytes fraction; VInt U64 (Z.of_N mantissa); VInt I32 exponent; VInt I32 mantissa_exponent; VB truncated] = Ok (VF (FBits (Z.of_N (fallback_path k integer fraction mantissa exponent mantissa_exponent truncated))), [])).
+Proof. exact (@LexAlgSrc4.lexical_algorithm_is_translated_source). Qed.
+Print Assumptions C07_lexical_algorithm_is_source.
+
